@@ -17,6 +17,9 @@ class Infra(Exception):
 # what the last run on the real tree recorded.
 OUT = VERIF if os.path.realpath(os.environ.get("VERIF_REPO", "/repo")) == "/repo" else os.path.join(VERIF, ".cache", "mutant-out")
 
+COVERAGE_OK = {"Holders", "MCGuards", "MCHash", "MCSeq", "Lifetime", "Strings", "Bitset", "OwnerScripts", "MCHeap", "MCRadix", "MCQsInd", "SortInputs"}
+
+
 class Ctx:
     def __init__(self, pid, tier, seed, replay=None):
         self.pid = pid
@@ -59,8 +62,11 @@ class Ctx:
         (infrastructure: the spec is my artefact, frigg is not accused by it).
         expect_violation: negative control - TLC must report this invariant/property violated."""
         sd = os.path.join(VERIF, "spec", spec_dir)
-        if not self.quick and expect_violation is None:
-            kw.setdefault("coverage", True)       # thorough tier: per-action counts go into the evidence (vacuity guard)
+        # thorough tier: per-action counts go into the evidence (vacuity guard) - for the models where -coverage is cheap;
+        # on the large implementation-shaped graphs (RBTreeImpl with one emitted history per transition, QsImpl, SlabPool)
+        # it multiplies TLC's memory and ran the interval-tree model out of 16 GB
+        if not self.quick and expect_violation is None and module in COVERAGE_OK:
+            kw.setdefault("coverage", True)
         r = T.run(sd, module, cfg, **kw)
         rec = {"module": module, "cfg": cfg, **r.summary()}
         if r.coverage:
